@@ -166,11 +166,14 @@ Record wobs := WO {
 Inductive outcome := OErr | OOk (w : wobs).
 
 (* A case loads 1-3 times: for a handle h() / h.clear(); h() / h.load(), for a
-   direct call once.  Per load: the serial of the World instance that came
-   back (in order of first appearance; the load's own number when it raised)
-   and what was observed of it.  Instances, callbacks and marks are counted
+   direct call once.  Per load: how it loads - the same handle every time, but
+   the files it reads may have been rewritten in between, so each load has its
+   own description; the number of the first load that returned the World instance
+   that came back (so: its own number iff the instance is new; when the load
+   raised: its own number, or -1 if the handle then claims to be cached); and
+   what was observed of it.  Instances, callbacks and marks are counted
    per load. *)
-Record C15_case := Case { c_env : env; c_load : load_kind; c_obs : list (Z * outcome) }.
+Record C15_case := Case { c_env : env; c_loads : list (load_kind * (Z * outcome)) }.
 
 (* =========================== the model ======================================= *)
 
@@ -462,11 +465,22 @@ Definition dispatch_load (w : wstate) : wstate :=
          (ws_queue w ++ [QLoad]) (ws_listen w) (ws_called w) (ws_marks w).
 
 (* populate_world_from_dict: processors first, then entities *)
-Definition populate (w : wstate) (td : tdesc) : option wstate :=
+Definition populate0 (w : wstate) (td : tdesc) : option wstate :=
   match foldM pop_proc w (fst td) with
   | Some w1 => foldM pop_ent w1 (snd td)
   | None => None
   end.
+
+(* a constructor that raises aborts the whole load, and nothing of an
+   aborted load is observed: the model looks for it before constructing *)
+Definition dstate_raises (d : dstate) : bool :=
+  match optl (s_args d) with
+  | JStr s :: _ => str_eqb s [33; 114; 97; 105; 115; 101]      (* "!raise" *)
+  | _ => false
+  end.
+
+Definition populate (w : wstate) (td : tdesc) : option wstate :=
+  if existsb dstate_raises (fst td ++ flat_map snd (snd td)) then None else populate0 w td.
 
 Definition run_step (E : env) (w : wstate) (s : step) : option wstate :=
   match s with
@@ -536,7 +550,7 @@ Definition accepts1 (E : env) (k : load_kind) (i : Z) (p : Z * outcome) : bool :
   (fst p =? i) && outcome_eqb (model E k) (snd p).
 
 Definition accepts (c : C15_case) : bool :=
-  forall2b (accepts1 (c_env c) (c_load c)) (zseq 0 (length (c_obs c))) (c_obs c).
+  forall2b (fun i r => accepts1 (c_env c) (fst r) i (snd r)) (zseq 0 (length (c_loads c))) (c_loads c).
 
 (* =========================== the property ===================================== *)
 (* forms of a string argument, read off the string alone *)
@@ -588,7 +602,9 @@ Definition classify (s : str) : form :=
     end
   end.
 
-Inductive expect := Exactly (v : val) | Anything.
+(* Exactly v: the constructor receives v.  MustFail: the reference names
+   nothing, the load raises.  Anything: left open. *)
+Inductive expect := Exactly (v : val) | Anything | MustFail.
 
 (* what the constructor must receive for the described argument a *)
 Definition subst_spec (E : env) (a : val) : expect :=
@@ -597,12 +613,12 @@ Definition subst_spec (E : env) (a : val) : expect :=
       match classify s with
       | FObj name => match slookup name (c_ns E) with
                      | Some e => Exactly (n_val e)           (* the named Python object *)
-                     | None => Anything
+                     | None => MustFail                       (* no such name: the load raises *)
                      end
       | FRes p => match slookup (dots_to_slashes p) (c_tree E) with
                   | Some (NHandle h r) => Exactly (JRef KRes r)   (* the loaded resource *)
                   | Some (NMap m) => Exactly (JRef KMap m)
-                  | None => Anything
+                  | None => MustFail                          (* no such resource: the load raises *)
                   end
       | FHandle p => match slookup (dots_to_slashes p) (c_tree E) with
                      | Some (NHandle h r) => Exactly (JRef KHandle h)  (* the resource's handle *)
@@ -621,12 +637,13 @@ Definition tree_expect (E : env) (p : str) (handle : bool) : expect :=
   match slookup (dots_to_slashes p) (c_tree E) with
   | Some (NHandle h r) => Exactly (if handle then JRef KHandle h else JRef KRes r)
   | Some (NMap m) => Exactly (JRef KMap m)
-  | None => Anything
+  | None => if handle then Anything else MustFail
   end.
 
 Definition spec_pass (E : env) (p : pass) (x : expect) : expect :=
   match x with
   | Anything => Anything
+  | MustFail => MustFail
   | Exactly (JStr s) =>
       match p with
       | PType => x
@@ -634,7 +651,7 @@ Definition spec_pass (E : env) (p : pass) (x : expect) : expect :=
           match exact_body m_obj s with
           | Some name => match slookup name (c_ns E) with
                          | Some e => Exactly (n_val e)
-                         | None => Anything
+                         | None => MustFail
                          end
           | None => if starts_with m_obj s then Anything else x
           end
@@ -673,14 +690,30 @@ Definition expected (E : env) (h : how) (a : val) : expect :=
   end.
 
 Definition arg_ok (E : env) (h : how) (a o : val) : bool :=
-  match expected E h a with Exactly v => val_eqb v o | Anything => true end.
+  match expected E h a with Exactly v => val_eqb v o | Anything => true | MustFail => false end.
 
+(* an argument that excuses an aborted load: left open, or naming nothing *)
 Definition open_arg (E : env) (h : how) (a : val) : bool :=
-  match expected E h a with Anything => true | Exactly _ => false end.
+  match expected E h a with Exactly _ => false | _ => true end.
 
+(* user code that raises: every double's constructor raises when its first
+   positional argument is the string "!raise" *)
+Definition boom : str := [33; 114; 97; 105; 115; 101].
+Definition is_boom (v : val) : bool := match v with JStr s => str_eqb s boom | _ => false end.
+Definition raises_args (l : list val) : bool := match l with a :: _ => is_boom a | [] => false end.
+Definition raises_constr (k : constr) : bool := raises_args (k_args k).
+
+Definition dict_raises (E : env) (hd : how * ddict) : bool :=
+  match optl (d_args (snd hd)) with
+  | a :: _ => match expected E (fst hd) a with Exactly v => is_boom v | _ => false end
+  | [] => false
+  end.
+
+(* a dict that excuses an aborted load *)
 Definition dict_open (E : env) (hd : how * ddict) : bool :=
   existsb (open_arg E (fst hd)) (optl (d_args (snd hd)))
-  || existsb (fun p => open_arg E (fst hd) (snd p)) (optl (d_kwargs (snd hd))).
+  || existsb (fun p => open_arg E (fst hd) (snd p)) (optl (d_kwargs (snd hd)))
+  || dict_raises E hd.
 
 Definition ent_dicts (e : edict) : list ddict := optl (e_comps e).
 Definition proc_dicts (ds : desc) : list ddict := optl (w_procs ds).
@@ -796,6 +829,8 @@ Definition spec_ok (E : env) (k : load_kind) (w : wobs) : bool :=
   let steps := steps_of k in
   (* every constructor call, in order, is what its dict says *)
   forall2b (check_constr E) (all_hdicts steps) (o_constr w)
+  (* no constructor that raises was called: such a load does not return *)
+  && negb (existsb raises_constr (o_constr w))
   (* exactly the processors the steps add, in order (file handle: the two
      default ones, then the listed ones) *)
   && zlist_eqb (o_procs w) (exp_procs steps 0)
@@ -810,7 +845,8 @@ Definition spec_ok (E : env) (k : load_kind) (w : wobs) : bool :=
      | None => false
      end.
 
-(* an aborted load is tolerated only when some argument is of an open form *)
+(* an aborted load is tolerated only when some argument is of an open form,
+   names nothing, or makes its constructor raise; and then it must abort *)
 Definition holds1 (E : env) (k : load_kind) (o : outcome) : bool :=
   match o with
   | OErr => has_open E (steps_of k)
@@ -823,17 +859,18 @@ Definition load_ok (E : env) (k : load_kind) (i : Z) (p : Z * outcome) : bool :=
   (fst p =? i) && holds1 E k (snd p).
 
 Definition holds_b (c : C15_case) : bool :=
-  forall2b (load_ok (c_env c) (c_load c)) (zseq 0 (length (c_obs c))) (c_obs c).
+  forall2b (fun i r => load_ok (c_env c) (fst r) i (snd r)) (zseq 0 (length (c_loads c))) (c_loads c).
 Definition holds (c : C15_case) : Prop := holds_b c = true.
 
 (* =========================== the domain ======================================= *)
-(* an argument of an exact reference form names something that exists *)
+(* JSON values.  A ${name} / $res{path} that names nothing makes the load
+   raise (that is specified); a $handle{path} that names nothing is outside
+   the domain (the code passes None) *)
 Definition arg_wf (E : env) (a : val) : bool :=
   plain a &&
   match a with
   | JStr s => match classify s with
-              | FObj name => match slookup name (c_ns E) with Some _ => true | None => false end
-              | FRes p | FHandle p =>
+              | FHandle p =>
                   match slookup (dots_to_slashes p) (c_tree E) with Some _ => true | None => false end
               | _ => true
               end
@@ -966,8 +1003,8 @@ Definition dict_known (E : env) (hd : how * ddict) : bool :=
 Definition known_k (E : env) (k : load_kind) : bool :=
   existsb (dict_known E) (all_hdicts (steps_of k)).
 
-Definition wf_b (c : C15_case) : bool := wf_k (c_env c) (c_load c).
-Definition known_b (c : C15_case) : bool := known_k (c_env c) (c_load c).
+Definition wf_b (c : C15_case) : bool := forallb (fun r => wf_k (c_env c) (fst r)) (c_loads c).
+Definition known_b (c : C15_case) : bool := existsb (fun r => known_k (c_env c) (fst r)) (c_loads c).
 
 Definition bit (b : bool) (n : nat) : nat := if b then n else 0%nat.
 Definition C15_verdict (c : C15_case) : nat :=
